@@ -70,6 +70,8 @@ def markdown(
     if renderer == "ast":
         # explicit and more similar to 2.x's API
         renderer = None
+    if plugins is not None:
+        plugins = tuple(plugins)
     key = (escape, renderer, plugins)
     if key in __cached_parsers:
         return __cached_parsers[key](text)
